@@ -33,6 +33,11 @@ Definition isOkInArg (c : ascii) := isUppercase c || isDigit c || Ascii.eqb c c_
 Definition isOkLongOpt (c : ascii) (first : bool) :=
   isLetter c || isDigit c || Ascii.eqb c c_us || (negb first && Ascii.eqb c c_dash).
 
+(** what may follow the end-of-options marker "--" (D14: a blank, a bracket, a parenthesis, a choice bar) *)
+Definition dd_end (c : ascii) : bool :=
+  Ascii.eqb c c_space || Ascii.eqb c c_tab || Ascii.eqb c "["%char || Ascii.eqb c "]"%char
+  || Ascii.eqb c "("%char || Ascii.eqb c ")"%char || Ascii.eqb c "|"%char.
+
 Fixpoint span (p : ascii -> bool) (l : str) : str * str :=
   match l with
   | c :: l' => if p c then let (a, b) := span p l' in (c :: a, b) else ([], l)
@@ -98,7 +103,7 @@ Fixpoint lex (fuel : nat) (pos : nat) (rest : str) (acc : list token) : lexres :
             match r2 with
             | [] => lex fuel' (pos + 2) r2 (mkTok TDblDash s_dd pos :: acc)
             | e :: r3 =>
-              if Ascii.eqb e c_space then lex fuel' (pos + 2) r2 (mkTok TDblDash s_dd pos :: acc)
+              if dd_end e then lex fuel' (pos + 2) r2 (mkTok TDblDash s_dd pos :: acc)
               else if isOkLongOpt e true then
                 let (name, r4) := span (fun x => isOkLongOpt x false) r3 in
                 let n := 3 + length name in
